@@ -170,10 +170,14 @@ def _sched(shard):
             done = r["bound_completed"]
             r = S.explore(lk, args, None, nthreads=nth, max_exec=MAX_EXEC, stop_on_diff=True)
             r["bound_completed"] = -1 if (not r["capped"] and r["outcomes"] == 1) else done  # -1 = unbounded completed
-    except S.LiftError as e:
-        # an AST shape the lifter does not model: the schedule space cannot be enumerated -> report, do not guess
-        add("unliftable", f"kernel source cannot be lifted for schedule exploration: {e}")
+    except (S.LiftError, SyntaxError, AttributeError, KeyError) as e:
+        # an AST shape the lifter does not model: the schedule space of this kernel cannot be enumerated. That is a
+        # limit of the harness, not a verdict on the code: nothing is reported for this kernel here (the native
+        # conformance sweep over thread counts and chunk sizes still runs on it) and the evidence says so.
         out["evals"] = 1
+        out["nontrivial"] = 0
+        out["extra"] = {"kernels_not_liftable": 1, "not_liftable": [f"{target}:{kn}: {type(e).__name__}: {e}"[:200]]}
+        out["samples"].append({"kernel": kn, "target": target, "not lifted": str(e)[:200]})
         return out
     out["evals"] = r["executions"]
     out["nontrivial"] = r["executions"]
@@ -186,6 +190,8 @@ def _sched(shard):
     outs = ("xx", "yy", "xyr", "xyi")
     for lab in outs:
         cnt = [c for (l_, i), c in r["write_counts"].items() if l_ == lab]
+        if not cnt:
+            continue  # the kernel does not use an output array of this name (layout is the implementation's business)
         if len(cnt) != K or any(c != 1 for c in cnt):
             add("slots", f"output array {lab}: slots written {sorted((i, c) for (l_, i), c in r['write_counts'].items() if l_ == lab)} (expected each of {K} slots exactly once)")
             break
@@ -287,7 +293,7 @@ for mode, order, sch in [(m, o, s) for m in ("auto", "cross") for o in (-1, 0, 1
         for ch in (0, 1, 4):
             numba.set_num_threads(nt); numba.set_parallel_chunksize(ch)
             r = compute_spectrum(data, 2.0, order=order, scheduler=sch, Jdes=30, Kdes=10, win="hann", backend="numba")
-            key = b"".join(np.asarray(r._data[k]).tobytes() for k in ("XX", "YY", "XY", "M2", "f", "L"))
+            key = b"".join(np.asarray(getattr(r, k)).tobytes() for k in ("XX", "YY", "XY", "M2", "f", "L"))
             res["evals"] += 1
             if base is None: base = key
             elif key != base: res["bad"].append({"mode": mode, "order": order, "sched": sch, "threads": nt, "chunk": ch})
@@ -329,8 +335,8 @@ def _analyzer_factory(shard):
 
 
 def _raw_key(res):
-    return b"".join(np.asarray(res._data[k]).tobytes() for k in ("f", "r", "b", "L", "K", "navg", "XX", "YY", "XY", "M2", "S12", "S2")) + \
-        b"".join(np.asarray(d, dtype=np.int64).tobytes() for d in res._data["D"])
+    return b"".join(np.asarray(getattr(res, k)).tobytes() for k in ("f", "r", "b", "L", "K", "navg", "XX", "YY", "XY", "M2", "S12", "S2")) + \
+        b"".join(np.asarray(d, dtype=np.int64).tobytes() for d in res.D)
 
 
 def _plan_key(p):
@@ -366,11 +372,9 @@ def _hist(shard):
     ops = _hist_ops(make)
     base = {op: _apply_an(make(), op) for op in ops}
     data_key = np.ascontiguousarray(data, dtype=np.float64).tobytes()
-    pre = {}
+    base_plan = _plan_key(make().plan())
 
     def apply(an, op):
-        pre["plan"] = an._plan_cache
-        pre["plan_key"] = None if an._plan_cache is None else _plan_key(an._plan_cache)
         try:
             return ("ok", _apply_an(an, op))
         except Exception as e:  # noqa: BLE001
@@ -382,9 +386,8 @@ def _hist(shard):
     def canon(an, h):
         if shard.get("nomerge"):
             return tuple(h)
-        cfg = {k: v for k, v in an.config.items() if k not in ("win", "win_func", "scheduler", "scheduler_func")}
-        return histories.state_hash({"data": an.data, "plan": None if an._plan_cache is None else _plan_key(an._plan_cache), "cfg": cfg,
-                                     "fs": an.fs, "nx": an.nx, "iscsd": an.iscsd})
+        # complete state of the analyzer object (whatever its private layout is)
+        return histories.state_hash(an)
 
     tag = f"hist/{shard['mode']}/{shard['backend']}"
 
@@ -395,11 +398,16 @@ def _hist(shard):
         o = obs[1]
         if o[1] != base[op][1]:
             res.append((f"{tag}/value/{op[0]}", f"after {list(h)} the call {op} returned numbers different from the same call on a fresh analyzer"))
-        if pre["plan"] is not None:
-            if an._plan_cache is not pre["plan"]:
-                res.append((f"{tag}/plan-replaced/{op[0]}", f"after {list(h)}+{op}: the cached plan is a different object"))
-            elif _plan_key(an._plan_cache) != pre["plan_key"]:
-                res.append((f"{tag}/plan-mutated/{op[0]}", f"after {list(h)}+{op}: the cached plan's content changed"))
+        # plans returned earlier in this history must be the object and the content returned now ("cached plans are returned unchanged")
+        plans = [x[1] for x in allobs if x[0] == "ok" and x[1][0] == "plan"]
+        if plans:
+            pnow = an.plan()
+            if any(pk[1] != _plan_key(pnow) for pk in plans):
+                res.append((f"{tag}/plan-mutated/{op[0]}", f"after {list(h)}+{op}: the plan returned earlier differs in content from the plan returned now"))
+            if any(pk[2] != id(pnow) for pk in plans):
+                res.append((f"{tag}/plan-replaced/{op[0]}", f"after {list(h)}+{op}: plan() no longer returns the cached plan object"))
+            if _plan_key(pnow) != base_plan:
+                res.append((f"{tag}/plan-content/{op[0]}", f"after {list(h)}+{op}: the cached plan differs from a fresh analyzer's plan"))
         if np.ascontiguousarray(an.data, dtype=np.float64).tobytes() != data_key:
             res.append((f"{tag}/data/{op[0]}", f"after {list(h)}+{op}: the analyzer's data changed"))
         return res
